@@ -280,8 +280,10 @@ def solve_scipy(
     else:
         status = SolverStatus.FAILED
 
-    # Compute actual objective value (undo negation for maximize)
-    obj_value = float(result.fun)
+    # Compute actual objective value at the returned point (undo negation for maximize).
+    # result.fun is not always the value at result.x: an abnormal L-BFGS-B exit returns
+    # the point of the failed line search with the value of an earlier iterate.
+    obj_value = objective(np.asarray(result.x, dtype=float))
     if problem.sense == "maximize":
         obj_value = -obj_value
 
